@@ -31,6 +31,8 @@ from vlib.core import Report, Violation
 
 warnings.filterwarnings("ignore")
 
+MAX_UNCLASSIFIED_WITNESSES = 40  # replay files written for unclassified failures per run (all failures are counted in the evidence)
+
 MAX_WORKERS = 4
 
 FUNCTIONS_UNDER_CONTRACT = [
@@ -417,6 +419,8 @@ def history_cases(tier: str, seed: int) -> Iterator[Dict[str, Any]]:
     maxlen = 3 if tier == "quick" else 4
     for variant in KEY_VARIANTS:
         for n in range(1, maxlen + 1):
+            if n == 4 and variant not in ("sql", "data-value"):
+                continue  # length 4 (thorough) for the key pairs differing in the SQL text and in one data value; the others stop at 3
             for hist in itertools.product(alpha, repeat=n):
                 if tier == "quick" and n == 3 and variant != "sql":
                     # quick: length-3 histories in full for the 'sql' key pair, every 4th (rotated by the seed) for the others
@@ -501,6 +505,7 @@ def scope_sizes(tier: str) -> Dict[str, int]:
 
 def bounded(rep: Report, tier: str, seed: int) -> None:
     per_key: Dict[str, int] = {}
+    n_unclassified = 0
     groups: Dict[str, int] = {}
     relations: Dict[str, int] = {}
     tagged = [("pair", c) for c in pair_cases(tier)] + [("datamap", c) for c in datamap_cases()] + [("history", c) for c in history_cases(tier, seed)]
@@ -519,7 +524,9 @@ def bounded(rep: Report, tier: str, seed: int) -> None:
             rep.add_sample(short(case))
         if msg:
             per_key[key] = per_key.get(key, 0) + 1
-            if per_key[key] <= 2:
+            n_unclassified += ":unclassified:" in key
+            # every failing case is counted (rep.extra); at most 2 witnesses per classified key and MAX_UNCLASSIFIED_WITNESSES unclassified ones are stored
+            if per_key[key] <= 2 and not (":unclassified:" in key and n_unclassified > MAX_UNCLASSIFIED_WITNESSES):
                 rep.violations.append(Violation(key=key, what="%s: %s" % (short(case), msg), replay={"module": "cbc.c25", "case": case}))
     rep.extra["c25_cases_by_group"] = groups
     rep.extra["c25_pairs_by_relation"] = relations
